@@ -930,6 +930,19 @@ LOOP_IPS = ["127.0.0.1", "127.0.0.2", "127.0.0.3"]
 
 
 LAPSE_S = 1.0
+_listener_port = [0]
+
+
+def next_listener_port():
+    """Ports for the scripted targets: counted upwards inside the upper part of the ephemeral range, each number once."""
+    lo, hi = _ephemeral_range()
+    lo = max(lo, hi - 20000)
+    if _listener_port[0] == 0:
+        _listener_port[0] = lo + (os.getpid() * 613) % 5000
+    _listener_port[0] += 1
+    if _listener_port[0] >= hi:
+        _listener_port[0] = lo
+    return _listener_port[0]
 
 
 class TcpFlow:
@@ -1022,9 +1035,18 @@ class TcpFlow:
         self.log.add(ev, **kw)
 
     async def listen(self):
+        # the listener's port is never used twice by this harness process: a connection that a starved server makes late,
+        # for a flow that has ended long ago, must not arrive at the listener of a later flow that was given the same number
         s = socket.socket(socket.AF_INET, socket.SOCK_STREAM)
-        s.setsockopt(socket.SOL_SOCKET, socket.SO_REUSEADDR, 1)
-        s.bind((self.ip, 0))
+        for _ in range(2000):
+            port = next_listener_port()
+            try:
+                s.bind((self.ip, port))
+                break
+            except OSError:
+                continue
+        else:
+            s.bind((self.ip, 0))
         self.port = s.getsockname()[1]
         if self.reach == "refused":
             s.close()               # the port was free a moment ago and nothing listens on it now
